@@ -6,8 +6,10 @@ package synth
 
 import (
 	"bytes"
+	"crypto"
 	"crypto/rand"
 	"crypto/rsa"
+	"crypto/sha1"
 	"crypto/sha256"
 	"crypto/x509"
 	"crypto/x509/pkix"
@@ -17,6 +19,8 @@ import (
 	"path/filepath"
 	"fmt"
 	"math/big"
+	"regexp"
+	"sort"
 	"strings"
 	"time"
 
@@ -97,6 +101,8 @@ type Doc struct {
 	BRWidth   int // width reserved for the array text
 	Hex       string // the hex digits between '<' and '>' (upper case as written)
 	SubFilter string
+	DictStart int      // offsets of the signature dictionary object ("6 0 obj" ... "endobj\n")
+	DictEnd   int
 	Digest    [32]byte // SHA-256 the CMS protects (of Lenient(bytes at signing time, ByteRange))
 }
 
@@ -113,6 +119,12 @@ type Options struct {
 	// FixedCMS, when set, is written into /Contents as is (nothing is signed): used for forged
 	// documents that re-use somebody else's CMS.
 	FixedCMS []byte
+	// MakeCMS, when set, produces the /Contents blob for the bytes selected by the /ByteRange
+	// (default: Signer.CMS, a detached SHA-256 SignedData with signed attributes). Its output
+	// length must not depend on its input.
+	MakeCMS func(data []byte) ([]byte, error)
+	// ExtraSigEntries is inserted verbatim into the signature dictionary (e.g. "/Cert <...>").
+	ExtraSigEntries string
 	// SigAfter places the signature dictionary as the last object (behind the page objects).
 }
 
@@ -149,7 +161,11 @@ func Build(s *Signer, o Options) (*Doc, error) {
 	if o.SubFilter == "" {
 		o.SubFilter = "adbe.pkcs7.detached"
 	}
-	probe, err := s.CMS([]byte("probe"))
+	mk := s.CMS
+	if o.MakeCMS != nil {
+		mk = o.MakeCMS
+	}
+	probe, err := mk([]byte("probe"))
 	if err != nil {
 		return nil, err
 	}
@@ -174,7 +190,7 @@ func Build(s *Signer, o Options) (*Doc, error) {
 	buf.WriteString("\nendstream\nendobj\n")
 	obj(5, "<< /Type /Annot /Subtype /Widget /FT /Sig /T (Signature1) /Rect [0 0 0 0] /F 132 /P 3 0 R /V 6 0 R >>")
 	offs[6] = buf.Len()
-	fmt.Fprintf(&buf, "6 0 obj\n<< /Type /Sig /Filter /Adobe.PPKLite /SubFilter /%s /ByteRange ", o.SubFilter)
+	fmt.Fprintf(&buf, "6 0 obj\n<< /Type /Sig /Filter /Adobe.PPKLite /SubFilter /%s %s /ByteRange ", o.SubFilter, o.ExtraSigEntries)
 	brStart := buf.Len()
 	buf.WriteString(strings.Repeat(" ", brWidth))
 	buf.WriteString(" /Contents ")
@@ -182,6 +198,7 @@ func Build(s *Signer, o Options) (*Doc, error) {
 	buf.WriteString("<" + strings.Repeat("0", hexLen) + ">")
 	gapEnd := buf.Len()
 	buf.WriteString(" /M (D:20260101000000Z) >>\nendobj\n")
+	dictEnd := buf.Len()
 	n := 7
 	for i := 0; i < o.ExtraObjs; i++ {
 		obj(n, fmt.Sprintf("<< /Verif %d >>", i))
@@ -211,7 +228,7 @@ func Build(s *Signer, o Options) (*Doc, error) {
 	if o.FixedCMS != nil {
 		cms = o.FixedCMS
 	} else {
-		cms, err = s.CMS(Lenient(b, r))
+		cms, err = mk(Lenient(b, r))
 		if err != nil {
 			return nil, err
 		}
@@ -225,7 +242,7 @@ func Build(s *Signer, o Options) (*Doc, error) {
 	}
 	copy(b[gapStart+1:], hx)
 	return &Doc{Bytes: b, ByteRange: r, GapStart: gapStart, GapEnd: gapEnd, BRStart: brStart, BRWidth: brWidth,
-		Hex: hx, SubFilter: o.SubFilter, Digest: dg}, nil
+		Hex: hx, SubFilter: o.SubFilter, Digest: dg, DictStart: offs[6], DictEnd: dictEnd}, nil
 }
 
 // Increment appends a syntactically valid incremental update (one new object, an xref
@@ -341,4 +358,150 @@ func InjectContent(cms, content []byte) ([]byte, error) {
 	body = append(body, r3...)
 	newSd := encTLV(0x30, body)
 	return encTLV(0x30, append(append([]byte{}, oid.raw...), encTLV(0xa0, newSd)...)), nil
+}
+
+var (
+	reRoot = regexp.MustCompile(`/Root\s+\d+\s+\d+\s+R`)
+	reSize = regexp.MustCompile(`/Size\s+(\d+)`)
+	reSXR  = regexp.MustCompile(`startxref\s+(\d+)`)
+)
+
+// ObjBody returns the text between "n 0 obj" and "endobj" of the newest definition of object n
+// that is written in clear in b ("" if none).
+func ObjBody(b []byte, n int) string {
+	re := regexp.MustCompile(fmt.Sprintf(`(?:^|[\r\n ])%d\s+0\s+obj`, n))
+	locs := re.FindAllIndex(b, -1)
+	if len(locs) == 0 {
+		return ""
+	}
+	st := locs[len(locs)-1][1]
+	e := bytes.Index(b[st:], []byte("endobj"))
+	if e < 0 {
+		return ""
+	}
+	return strings.TrimSpace(string(b[st : st+e]))
+}
+
+// IncrementObjs appends ONE well-formed incremental update that (re)defines the given objects:
+// the objects, a classic xref section with one subsection per object, and a trailer carrying
+// /Size, the previous /Root and /Prev.  Works behind classic xref tables and xref streams.
+func IncrementObjs(b []byte, objs map[int]string) ([]byte, error) {
+	root := reRoot.FindAll(b, -1)
+	sizes := reSize.FindAllSubmatch(b, -1)
+	sx := reSXR.FindAllSubmatch(b, -1)
+	if len(root) == 0 || len(sizes) == 0 || len(sx) == 0 {
+		return nil, fmt.Errorf("increment: no trailer information")
+	}
+	size := 0
+	for _, m := range sizes {
+		var v int
+		fmt.Sscanf(string(m[1]), "%d", &v)
+		if v > size {
+			size = v
+		}
+	}
+	var prev int
+	fmt.Sscanf(string(sx[len(sx)-1][1]), "%d", &prev)
+	nums := make([]int, 0, len(objs))
+	for n := range objs {
+		nums = append(nums, n)
+		if n+1 > size {
+			size = n + 1
+		}
+	}
+	sort.Ints(nums)
+	var buf bytes.Buffer
+	buf.Write(b)
+	if len(b) > 0 && b[len(b)-1] != '\n' {
+		buf.WriteByte('\n')
+	}
+	offs := map[int]int{}
+	for _, n := range nums {
+		offs[n] = buf.Len()
+		fmt.Fprintf(&buf, "%d 0 obj\n%s\nendobj\n", n, objs[n])
+	}
+	xref := buf.Len()
+	buf.WriteString("xref\n")
+	for _, n := range nums {
+		fmt.Fprintf(&buf, "%d 1\n%010d 00000 n \n", n, offs[n])
+	}
+	fmt.Fprintf(&buf, "trailer\n<< /Size %d %s /Prev %d >>\nstartxref\n%d\n%%%%EOF\n", size, root[len(root)-1], prev, xref)
+	return buf.Bytes(), nil
+}
+
+// StripAttrs rewrites the (single) SignerInfo of cms without signed attributes: the RSA
+// PKCS#1 v1.5 / SHA-256 signature is made directly over content.
+func (s *Signer) StripAttrs(cms, content []byte) ([]byte, error) {
+	outer, _, err := readTLV(cms)
+	if err != nil {
+		return nil, err
+	}
+	oid, rest, err := readTLV(outer.body)
+	if err != nil {
+		return nil, err
+	}
+	ctx0, _, err := readTLV(rest)
+	if err != nil {
+		return nil, err
+	}
+	sd, _, err := readTLV(ctx0.body)
+	if err != nil {
+		return nil, err
+	}
+	var body []byte
+	rem := sd.body
+	for len(rem) > 0 {
+		t, r2, err := readTLV(rem)
+		if err != nil {
+			return nil, err
+		}
+		rem = r2
+		if t.tag != 0x31 || len(rem) > 0 { // only the last SET is signerInfos
+			body = append(body, t.raw...)
+			continue
+		}
+		si, _, err := readTLV(t.body)
+		if err != nil || si.tag != 0x30 {
+			return nil, fmt.Errorf("der: signerInfo: %v", err)
+		}
+		d := sha256.Sum256(content)
+		sig, err := rsa.SignPKCS1v15(rand.Reader, s.Key, crypto.SHA256, d[:])
+		if err != nil {
+			return nil, err
+		}
+		var nsi []byte
+		r3 := si.body
+		for len(r3) > 0 {
+			c, r4, err := readTLV(r3)
+			if err != nil {
+				return nil, err
+			}
+			r3 = r4
+			switch c.tag {
+			case 0xa0: // signed attributes: dropped
+			case 0x04:
+				nsi = append(nsi, encTLV(0x04, sig)...)
+			default:
+				nsi = append(nsi, c.raw...)
+			}
+		}
+		body = append(body, encTLV(0x31, encTLV(0x30, nsi))...)
+	}
+	return encTLV(0x30, append(append([]byte{}, oid.raw...), encTLV(0xa0, encTLV(0x30, body))...)), nil
+}
+
+// P1Contents is the /Contents of an adbe.x509.rsa_sha1 signature: a DER OCTET STRING holding
+// the PKCS#1 v1.5 signature over SHA-1(data).
+func (s *Signer) P1Contents(data []byte) ([]byte, error) {
+	h := sha1.Sum(data)
+	sig, err := rsa.SignPKCS1v15(rand.Reader, s.Key, crypto.SHA1, h[:])
+	if err != nil {
+		return nil, err
+	}
+	return encTLV(0x04, sig), nil
+}
+
+// CertEntry is the /Cert entry for adbe.x509.rsa_sha1.
+func (s *Signer) CertEntry() string {
+	return "/Cert <" + strings.ToUpper(hex.EncodeToString(s.Cert.Raw)) + ">"
 }
